@@ -44,6 +44,15 @@
 using namespace nano;
 using namespace verif;
 
+// Under ASan RLIMIT_AS is unusable; its allocator gets the cap instead: with allocator_may_return_null=1 (set by the
+// driver) a request above the limit makes malloc return nullptr (=> std::bad_alloc from Eigen's allocator, a rejection)
+// instead of mapping and poisoning gigabytes of memory. The corpus itself needs a few kilobytes per object.
+extern "C" const char* __asan_default_options(); // NOLINT
+extern "C" const char* __asan_default_options()  // NOLINT
+{
+    return "max_allocation_size_mb=32:allocator_may_return_null=1";
+}
+
 namespace
 {
 // ---------------------------------------------------------------------------------------------------------------------
@@ -510,7 +519,10 @@ parameters_t corpus_parameters()
     }
     ps.push_back(parameter_t::make_enum("gboost::subsample", gboost_subsample::off));
     ps.push_back(parameter_t::make_string("str", ""));
-    ps.push_back(parameter_t::make_string("a string", std::string("some value \x01\xff with a zero \0 inside", 36)));
+    {
+        const char text[] = "some value \x01\xff with a zero \0 inside";
+        ps.push_back(parameter_t::make_string("a string", std::string(text, sizeof(text) - 1)));
+    }
     ps.push_back(parameter_t::make_integer("int", 0, LE, 5, LE, 10));
     ps.push_back(parameter_t::make_integer("int-lt", -7, LT, -3, LT, 1000000000000LL));
     {
@@ -1055,7 +1067,12 @@ rentry_t gboost_entry(const int variant)
 
     auto e   = std::make_shared<entry_t>();
     e->kind  = "gboost";
-    e->name  = "fitted-gboost:variant" + std::to_string(variant) + ":wlearners=" + std::to_string(model->wlearners().size());
+    e->name  = "fitted-gboost:variant" + std::to_string(variant) + ":wlearners=";
+    for (const auto& w : model->wlearners())
+    {
+        e->name += w->type_id() + ",";
+    }
+    e->name += ":prototypes=" + std::to_string(model->prototypes().size());
     e->bytes = bytes_of(*model);
     e->read  = [](std::istream& is)
     {
@@ -1306,9 +1323,10 @@ corpus_t make_corpus(const args_t& args)
     const auto maxrank  = static_cast<size_t>(args.geti("maxrank", 5));
     const auto dim_hi   = static_cast<tensor_size_t>(args.geti("maxdim", 3));
     const auto dim_lo   = static_cast<tensor_size_t>(args.geti("maxdim_low_rank", thorough ? 6 : dim_hi));
+    const auto dim_r4   = static_cast<tensor_size_t>(args.geti("maxdim_rank4", thorough ? 4 : dim_hi));
     for (size_t rank = 1; rank <= maxrank; ++rank)
     {
-        add_shapes(c.shapes, rank, rank <= 3 ? dim_lo : dim_hi);
+        add_shapes(c.shapes, rank, rank <= 3 ? dim_lo : rank == 4 ? dim_r4 : dim_hi);
     }
     c.tensors_begin = corpus.size();
     for (size_t s = 0; s < c.shapes.size(); ++s)
@@ -1339,7 +1357,7 @@ corpus_t make_corpus(const args_t& args)
                 corpus.push_back({"linear", true, [=]() { return linear_entry(id, 1); }});
             }
         }
-        for (int variant = 0; variant < (thorough ? 3 : 2); ++variant)
+        for (int variant = 0; variant < 3; ++variant)
         {
             corpus.push_back({"gboost", true, [=]() { return gboost_entry(variant); }});
         }
@@ -1410,9 +1428,9 @@ void announce(const std::string& tag, const uint64_t index)
     std::fflush(stderr);
 }
 
-const char* tensor_field(const entry_t& e, const size_t p)
+const char* tensor_field(const size_t rank, const size_t p)
 {
-    const auto dims_end = 8 + 4 * e.rank;
+    const auto dims_end = 8 + 4 * rank;
     return p < 4 ? "version" : p < 8 ? "rank" : p < dims_end ? "dims" : p < dims_end + 4 ? "sizeof-scalar" : p < dims_end + 12 ? "hash" : "payload";
 }
 
@@ -1480,7 +1498,7 @@ int main(int argc, char** argv)
             std::fprintf(stderr, "c15: setrlimit(RLIMIT_AS) failed\n");
             return 2;
         }
-        r.note("address_space_cap_mb", jint(mb));
+        r.note("address_space_cap_mb", jstr(std::to_string(mb)));
     }
 
     if (!self_test())
@@ -1495,7 +1513,8 @@ int main(int argc, char** argv)
     r.axis("tensor.shapes", jobj({{"count", jint(corpus.shapes.size())},
                                   {"rule", jstr("every shape of rank 1.." + std::to_string(args.geti("maxrank", 5)) +
                                                 " with dims in 0.." + std::to_string(args.geti("maxdim_low_rank", args.thorough() ? 6 : args.geti("maxdim", 3))) +
-                                                " (rank<=3) / 0.." + std::to_string(args.geti("maxdim", 3)) + " (rank 4,5)")}}));
+                                                " (rank<=3) / 0.." + std::to_string(args.geti("maxdim_rank4", args.thorough() ? 4 : args.geti("maxdim", 3))) + " (rank 4) / 0.." +
+                                                std::to_string(args.geti("maxdim", 3)) + " (rank 5)")}}));
 
     uint64_t                        bytes_total = 0, objects_done = 0;
     std::map<std::string, uint64_t> objects_by_kind, bytes_by_kind;
@@ -1626,7 +1645,7 @@ int main(int argc, char** argv)
             for (size_t p = 0; p < len; ++p)
             {
                 const auto original = bytes[p];
-                const auto field    = std::string(tensor_field(*e, p));
+                const auto field    = std::string(tensor_field(e->rank, p));
                 for (const int pattern : {0, 1, 2})
                 {
                     const auto ub = static_cast<unsigned char>(original);
@@ -1642,13 +1661,25 @@ int main(int argc, char** argv)
                     local[std::string(name(res.what)) + "/" + field] += 1;
                     if (is_silent_success(res))
                     {
-                        const auto key = field == "dims" && e->empty_tensor ? std::string("corrupt:accepted:dims:empty-tensor")
-                                                                            : "corrupt:accepted:" + field;
+                        // decode the (corrupted) dims field for the report
+                        std::vector<double> cdims;
+                        bool                negative = false;
+                        for (size_t i = 0; i < e->rank; ++i)
+                        {
+                            int32_t dim = 0;
+                            std::memcpy(&dim, bytes.data() + 8 + 4 * i, sizeof(dim));
+                            cdims.push_back(dim);
+                            negative = negative || dim < 0;
+                        }
+                        const auto key = field == "dims" && e->empty_tensor
+                                           ? std::string("corrupt:accepted:dims:empty-tensor") + (negative ? ":negative-dim" : "")
+                                           : "corrupt:accepted:" + field;
                         r.violation(key, "co:" + std::to_string(index),
                                     jobj({{"object", jstr(e->name)}, {"stream_bytes", jint(len)}, {"byte_offset", jint(p)},
                                           {"field", jstr(field)}, {"original_byte", jint(ub)},
                                           {"corrupted_byte", jint(static_cast<unsigned char>(bytes[p]))},
                                           {"header_hex", jstr(hex(bytes, 0, 20 + 4 * e->rank))},
+                                          {"dims_in_corrupted_header", jarr_num(cdims)},
                                           {"observed", jstr("corrupted stream read successfully")},
                                           {"expected", jstr("failed stream")}}));
                     }
@@ -1666,6 +1697,91 @@ int main(int argc, char** argv)
         });
         r.note("header_corruptions", jint(header_cases));
         r.note("payload_corruptions", jint(payload_cases));
+
+        // the tensors nested in composite streams (weak learners, linear and boosting models): the container's reader must fail
+        units_t units;
+        for (size_t i = 0; i < corpus.recipes.size(); ++i)
+        {
+            const auto& kind = corpus.recipes[i].kind;
+            if (kind == "wlearner" || kind == "linear" || kind == "gboost" || kind == "factory:wlearner" || kind == "factory:linear")
+            {
+                (corpus.recipes[i].model ? units.models : units.small).push_back(i);
+            }
+        }
+        lattice_t nlat;
+        nlat.axis("composite object x offset-class", units.size(),
+                  jstr("every byte of every tensor nested in an (un)fitted weak learner, linear model or boosting model"));
+        nlat.describe(r, "corrupt-nested.");
+        uint64_t nested_cases = 0;
+        for_each_case(nlat, r, "cn", [&](const uint64_t index, const std::vector<uint64_t>&) {
+            announce("cn", index);
+            size_t   object  = 0;
+            uint64_t residue = 0, modulus = 1;
+            units.decode(index, object, residue, modulus);
+            const auto e = build(corpus, object);
+            if (residue == 0)
+            {
+                account(*e);
+            }
+            auto       bytes = e->bytes;
+            const auto len   = bytes.size();
+            std::map<std::string, uint64_t> local;
+            for (const auto& span : e->nested)
+            {
+                if (span.what.size() < 6 || span.what.compare(span.what.size() - 6, 6, "tensor") != 0)
+                {
+                    continue;
+                }
+                uint32_t rank = 0;
+                std::memcpy(&rank, bytes.data() + span.begin + 4, sizeof(rank));
+                const bool empty = (span.end - span.begin) == 20 + 4 * static_cast<size_t>(rank);
+                for (size_t p = span.begin; p < span.end; ++p)
+                {
+                    if (p % modulus != residue)
+                    {
+                        continue;
+                    }
+                    const auto original = bytes[p];
+                    const auto field    = std::string(tensor_field(rank, p - span.begin));
+                    for (const int pattern : {0, 1, 2})
+                    {
+                        const auto ub = static_cast<unsigned char>(original);
+                        bytes[p]      = static_cast<char>(pattern == 0 ? (ub ^ 0x01U) : pattern == 1 ? (ub ^ 0x80U) : (~ub & 0xFFU));
+                        const auto res = guarded(bytes.data(), len, e->read);
+                        r.evaluations += 1;
+                        ++nested_cases;
+                        if (field == "payload" || field == "hash" || field == "dims")
+                        {
+                            ++r.nontrivial;
+                        }
+                        local[std::string(name(res.what)) + "/nested-" + field] += 1;
+                        if (is_silent_success(res))
+                        {
+                            const auto key = field == "dims" && empty ? std::string("corrupt:accepted:dims:empty-tensor:nested-in-" + e->kind)
+                                                                      : "corrupt:accepted:nested-in-" + e->kind + ":" + field;
+                            r.violation(key, "cn:" + std::to_string(index),
+                                        jobj({{"object", jstr(e->name)}, {"stream_bytes", jint(len)}, {"byte_offset", jint(p)},
+                                              {"nested_object", jstr(span.what)}, {"nested_begin", jint(span.begin)},
+                                              {"nested_end", jint(span.end)}, {"field", jstr(field)}, {"original_byte", jint(ub)},
+                                              {"corrupted_byte", jint(static_cast<unsigned char>(bytes[p]))},
+                                              {"tensor_header_hex", jstr(hex(bytes, span.begin, 20 + 4 * static_cast<size_t>(rank)))},
+                                              {"observed", jstr("container stream with a corrupted tensor read successfully")},
+                                              {"expected", jstr("exception or failed stream")}}));
+                        }
+                    }
+                    bytes[p] = original;
+                }
+            }
+            for (const auto& [k, n] : local)
+            {
+                r.outcome(k, n);
+            }
+            if (modulus == 1 ? index % 7 == 0 : residue == 0)
+            {
+                r.sample(jobj({{"object", jstr(e->name)}, {"bytes", jint(len)}, {"nested_objects", jint(e->nested.size())}}));
+            }
+        });
+        r.note("nested_tensor_corruptions", jint(nested_cases));
     }
     else
     {
